@@ -147,18 +147,42 @@ def _otsu_case(rng):
             "a": float(rng.uniform(0.2, 3.0)), "bf": float(rng.uniform(-1, 1))}
 
 
+def _fmul_cases(rng, n):
+    """binary64 product vs Base.ThresholdNum.fmul: random operands, the band constants, exact ties
+    ((2^52+odd) * 1.5 has 54 significant bits ending in 1), gradual underflow"""
+    cases = []
+    for k in range(n):
+        u = k % 6
+        if u == 0:
+            a, b = float(rng.rand()), float(rng.choice([0.7, 1.5, 0.5, 2.0, 0.8, 1.3]))
+        elif u == 1:
+            a, b = float(rng.rand()), float(rng.uniform(0.3, 2.5))
+        elif u == 2:
+            a = math.ldexp(float((1 << 52) + 2 * int(rng.randint(1 << 30)) + 1), int(rng.randint(-60, -50)))
+            b = float(rng.choice([1.5, 0.75, 2.5, 1.25]))
+        elif u == 3:
+            a, b = math.ldexp(float(rng.rand()), int(rng.randint(-1074, -1000))), float(rng.uniform(0.3, 2.5))
+        elif u == 4:
+            a, b = math.ldexp(float(rng.randint(1, 1 << 20)), -1074), float(rng.choice([0.7, 1.5, 0.5, 0.25]))
+        else:
+            a, b = float(rng.randn() * 10), float(rng.randn())
+        cases.append({"fn": "fmul", "a": a, "b": b})
+    return cases
+
+
 def generate(ctx):
     rng = ctx.rng
     cases = []
-    reps = ctx.n(3, 24)
+    reps = ctx.n(8, 48)
     for r in range(reps):
         for method in METHODS:
             for mod in (0, 1, 2):
                 if method == "MoG" and mod == 1 and r % 3:
                     continue                      # MoG per block is slow: a third of the share
                 cases.append(_thr_case(rng, method, mod))
-    for _ in range(ctx.n(150, 2000)):
+    for _ in range(ctx.n(300, 3000)):
         cases.append(_otsu_case(rng))
+    cases.extend(_fmul_cases(rng, ctx.n(300, 3000)))
     for c in cases:
         ctx.count(c["fn"] if c["fn"] != "thr" else "thr:%s:%s" % (MODS[c["mod"]], c["kind"]))
     return cases
@@ -295,14 +319,21 @@ def _impl_otsu(case):
     out["affine"] = [float(otsu(af * x + bf)), af * t + bf]
     out["minmax"] = [float(x.min()), float(x.max())]
     for name, f in (("entropy", entropy), ("otsu3", otsu3), ("entropy3", entropy3)):
-        r0 = np.atleast_1d(np.asarray(f(x.copy()), float)).tolist()
-        r1 = np.atleast_1d(np.asarray(f(x[perm].copy()), float)).tolist()
-        r2 = np.atleast_1d(np.asarray(f(xn.copy()), float)).tolist()
-        out[name] = {"perm": r0 == r1, "nan": r0 == r2, "in": all(x.min() <= v <= x.max() for v in r0)}
+        try:
+            r0 = np.atleast_1d(np.asarray(f(x.copy()), float)).tolist()
+            r1 = np.atleast_1d(np.asarray(f(x[perm].copy()), float)).tolist()
+            r2 = np.atleast_1d(np.asarray(f(xn.copy()), float)).tolist()
+        except Exception as e:           # outside the claim (the property speaks of the two-class cut); counted
+            out[name] = {"skipped": type(e).__name__}
+            continue
+        same = lambda p, q: len(p) == len(q) and all(u == v or (u != u and v != v) for u, v in zip(p, q))
+        out[name] = {"perm": same(r0, r1), "nan": same(r0, r2)}
     return out
 
 
 def impl(case):
+    if case["fn"] == "fmul":
+        return {"p": float(np.float64(case["a"]) * np.float64(case["b"]))}
     return _impl_thr(case) if case["fn"] == "thr" else _impl_otsu(case)
 
 
@@ -364,7 +395,17 @@ def model(ctx, cases, outs):
     oi = [k for k, c in enumerate(cases) if c["fn"] == "otsu" and not _bad(outs[k])]
     for k, r in zip(oi, ctx.run_model("entry_otsu", [cases[k]["ints"] for k in oi])):
         res[k] = r
+        if _tied(r):
+            ctx.count("otsu_argmin_illconditioned_not_compared")
+    fi = [k for k, c in enumerate(cases) if c["fn"] == "fmul"]
+    for k, r in zip(fi, ctx.run_model("entry_fmul", [[_q(cases[k]["a"]), _q(cases[k]["b"])] for k in fi])):
+        res[k] = r
     return res
+
+
+def _tied(m):
+    best, second = _fr(m[1]), (None if m[2] == [] else _fr(m[2][0]))
+    return second is not None and second - best <= Fraction(1, 10 ** 6) * max(best, Fraction(1, 10 ** 6))
 
 
 def _fr(p):
@@ -393,6 +434,11 @@ def _cmp_run(out, m):
 
 
 def compare(case, out, m):
+    if case["fn"] == "fmul":
+        if _bad(out) or not math.isfinite(out["p"]):
+            return "binary64 product failed: %s" % (out,)
+        return None if _fr(m) == Fraction(out["p"]) else "fmul %r * %r: hardware %r, model %r" % (
+            case["a"], case["b"], out["p"], float(_fr(m)))
     if case["fn"] == "thr":
         if _rejected(case):
             if not (isinstance(out, dict) and out.get("exc") == "TypeError"):
@@ -413,9 +459,8 @@ def compare(case, out, m):
     if not (isinstance(m, list) and len(m) == 3):
         return "otsu model failed: %s" % (str(m)[:100],)
     t = _fr(m[0]) / (1 << case["bits"])
-    best, second = _fr(m[1]), (None if m[2] == [] else _fr(m[2][0]))
-    if second is not None and second - best <= Fraction(1, 10 ** 6) * max(best, Fraction(1, 10 ** 6)):
-        return None                                  # ill-conditioned arg-min; counted in check()
+    if _tied(m):
+        return None                                  # ill-conditioned arg-min; counted in model()
     if abs(Fraction(out["t"]) - t) > Fraction(1, 10 ** 9) * max(abs(t), Fraction(1, 1 << case["bits"])):
         return "otsu: implementation %r, Q model %r" % (out["t"], float(t))
     return None
@@ -428,6 +473,8 @@ def check(ctx, cases, outs):
     ci, args = [], []
     bi, bargs = [], []
     for k, (c, o) in enumerate(zip(cases, outs)):
+        if c["fn"] == "fmul":
+            continue
         if c["fn"] == "thr":
             if _rejected(c):
                 continue
@@ -476,7 +523,9 @@ def check(ctx, cases, outs):
                 res[k] = "S6 otsu(a x + b) = %r but a otsu(x) + b = %r" % tuple(o["affine"])
             else:
                 for name in ("entropy", "otsu3", "entropy3"):
-                    if not o[name]["perm"] or not o[name]["nan"]:
+                    if "skipped" in o[name]:
+                        ctx.count("%s_raised_%s" % (name, o[name]["skipped"]))
+                    elif not o[name]["perm"] or not o[name]["nan"]:
                         res[k] = "S6 %s is not invariant under permutation / NaN insertion" % name
     for k, r in zip(ci, ctx.run_model("entry_check", args)):
         if r != 1:
@@ -502,7 +551,7 @@ def _illcond(ctx, case):
     if key not in _ILL:
         m = ctx.run_model("entry_otsu", [case["ints"]])[0]
         best, second = _fr(m[1]), (None if m[2] == [] else _fr(m[2][0]))
-        _ILL[key] = second is not None and second - best <= Fraction(1, 10 ** 6) * max(best, Fraction(1, 10 ** 6))
+        _ILL[key] = _tied(m)
         if _ILL[key]:
             ctx.count("otsu_illconditioned_affine_skipped")
     return _ILL[key]
@@ -512,7 +561,9 @@ def nontrivial(case, out):
     if _bad(out):
         return False
     if case["fn"] == "thr":
-        return out["distinct"] >= 3 and out["n_out"] > 0
+        return (not _rejected(case)) and out["distinct"] >= 3 and out["n_out"] > 0
+    if case["fn"] == "fmul":
+        return False
     return len(set(case["ints"])) >= 3
 
 
@@ -560,6 +611,8 @@ def search_cases(ctx, rnd):
 
 
 def shrink_candidates(case):
+    if case["fn"] == "fmul":
+        return
     if case["fn"] == "otsu":
         v = case["ints"]
         if len(v) > 2:
